@@ -8,6 +8,7 @@ import (
 	"go/token"
 	"go/types"
 	"runtime"
+	"runtime/debug"
 	"sync"
 
 	"golang.org/x/tools/go/ssa"
@@ -88,6 +89,7 @@ type Interp struct {
 	curFn     *ssa.Function
 	probes    []probe
 	clockTicks int
+	randCount  int
 	fixed     map[string]uint64
 	symFmtOK  int
 	initBroken map[*ssa.Package]bool
@@ -310,6 +312,24 @@ func (in *Interp) callSSA(caller *Frame, fn *ssa.Function, args []Value, env []V
 	defer func() {
 		in.depth--
 		in.curFn = savedFn
+		if in.noFork == 0 {
+			// annotate engine faults with the interpreted call stack (innermost frame only)
+			if r := recover(); r != nil {
+				switch e := r.(type) {
+				case *EngineError:
+					if !e.located {
+						e.msg += in.stackString()
+						e.located = true
+					}
+				case runtime.Error:
+					r = &EngineError{msg: e.Error() + in.stackString() + "\n" + string(debug.Stack()), located: true}
+				}
+				if th != nil {
+					th.stack = th.stack[:len(th.stack)-1]
+				}
+				panic(r)
+			}
+		}
 		if th != nil {
 			th.stack = th.stack[:len(th.stack)-1]
 		}
